@@ -588,6 +588,13 @@ def explore(ctx, cases, physs, label="hybrid"):
         rows = results[k]["impl"]["monthly"]
         if not all(math.isfinite(v) for r in rows for v in r):
             continue
+        if any(r[j] < 0 or r[j] > 24 * 27 for r in rows for j in (8, 9)):
+            # a degenerate duration (constant month: peak - average is rounding noise, the duration comes out
+            # as +-1e16 h): hours like 2893 + 1.4e16 - 1.4e16 lose whole hours in double precision, the exact
+            # model keeps them.  Not a modelling question; the property predicate reports the case
+            # (known finding degenerate-duration).
+            ctx.count("near-boundary:degenerate-duration-sequence-not-compared")
+            continue
         recs = [(r[0], r[1], r[2], r[3], r[6], r[7], r[8], r[9]) for r in rows]
         seq_jobs.append((k, e, seq_line(recs, results[k]["case"].get("start", 1), e)))
     if seq_jobs:
